@@ -101,7 +101,7 @@ class FunctionResult:
             "feasible_exits": self.feasible_exits, "secs": round(self.secs, 3),
             "source_hash": self.source_hash, "uncovered_lines": self.uncovered,
             "callee_contracts_used": sorted(self.assumed), "opaque_calls": sorted(self.opaque),
-            "call_feas": getattr(self, "call_feas", {}), "raised": self.raised_classes, "canaries": self.canaries, "canary_proved": self.canary_proved,
+            "call_feas": getattr(self, "call_feas", {}), "raised": self.raised_classes, "canaries": self.canaries, "canary_proved": self.canary_proved, "infeasible_full": getattr(self, "infeasible_full", 0),
             "obligations": {k: {kk: vv for kk, vv in v.items() if kk not in ("smt2",)} for k, v in self.obligations.items()},
         }
 
@@ -447,6 +447,13 @@ class Verifier:
             inputs[p] = frame.env[p]
         for g, (ty, init) in con.ghost.items():
             frame.env[g] = eng.eval_spec(init, frame)
+        if con.ghost_params:
+            # a ghost input must not share its name with something the code binds: the code's assignment would silently
+            # overwrite (and loop cuts havoc) the ghost value
+            bound = {n.id for n in ast.walk(fn) if isinstance(n, ast.Name) and isinstance(n.ctx, (ast.Store, ast.Del))} | {a.arg for a in ast.walk(fn) if isinstance(a, ast.arg)}
+            clash = sorted(set(con.ghost_params) & bound)
+            if clash:
+                raise EngineError(f"spec expression: ghost parameter(s) {clash} of {con.func} clash with names the function binds (unresolved name for the contract: rename the ghost)")
         for g, ty in con.ghost_params.items():
             frame.env[g] = eng.make(ty, g)
             inputs[g] = frame.env[g]
@@ -517,16 +524,17 @@ class Verifier:
         # the branch conditions were decided on the quantifier-free part only; an exit whose full
         # path condition is inconsistent is an infeasible path (and if every exit is, the contract's
         # assumptions are inconsistent: vacuity guard)
-        if eng.quant_branched or res.canaries < 3:
+        if eng.quant_branched or not getattr(res, "full_ok", False):
             res.canaries += 1
             cs = z3.Solver()
             cs.set("timeout", 1500)
             cs.add(eng.pc)
             if cs.check() == z3.unsat:
-                if eng.quant_branched:
-                    res.infeasible_full = getattr(res, "infeasible_full", 0) + 1
-                    return
-                res.canary_proved += 1       # no quantified branch was taken: the assumptions themselves are inconsistent
+                # infeasible exit (e.g. a raise site excluded by a quantified precondition); if every exit is infeasible
+                # the function result is "vacuous" (feasible_exits == 0): that is the must-fail canary
+                res.infeasible_full = getattr(res, "infeasible_full", 0) + 1
+                return
+            res.full_ok = True
         res.feasible_exits += 1
         env = dict(eng.entry_env)
         if frame.parent is not None:
